@@ -40,6 +40,8 @@ Record table := mkTable {
   t_meshset_need : bool;    (* simu.mesh setter: Need_Update *)
   t_meshset_clear : bool;   (* simu.mesh setter: clear_cached_computed_values(self) *)
   t_meshset_sub : bool;     (* simu.mesh setter: mesh._Add_observer(self) *)
+  t_meshset_keeps_old : bool; (* the simulation stays subscribed to the meshes of its history: the setter does not
+                                 _Remove_observer itself from the replaced mesh (or __Update_mesh re-subscribes) *)
   t_meshset_initsols : bool; (* simu.mesh setter: UNCONDITIONAL self.__Init_Sols_n() (solution vectors of the old mesh dropped) *)
   t_updmesh_need : bool;    (* _Simu.__Update_mesh (Set_Iter on another mesh): Need_Update *)
   t_updmesh_clear : bool;
@@ -70,7 +72,7 @@ Definition table_ok (T : table) : bool :=
   t_param_need T && t_model_notify T && t_upd_model_need T && t_upd_mesh_need T &&
   t_upd_mesh_clear T && t_init_sub_model T && t_pf_sub_material T && t_rho_need T &&
   t_ray_need T && forallb (fun k => t_mesh_clear T k && t_mesh_notify T k) all_mops &&
-  t_meshset_need T && t_meshset_sub T && t_meshset_initsols T && t_updmesh_need T &&
+  t_meshset_need T && t_meshset_sub T && t_meshset_keeps_old T && t_meshset_initsols T && t_updmesh_need T &&
   not_never (t_bcinit T) && not_never (t_dirichlet T) && not_never (t_lagrange T) &&
   t_newton_need T && t_pf_need_d T && t_pf_need_u T && t_pf_setiter_d T && t_pf_setiter_u T &&
   t_pf_dmg_inval_u T && t_pf_el_inval_d T && t_csr_key_groups T && t_csr_key_ndof T &&
@@ -255,7 +257,8 @@ Definition setmesh_sim (T : table) (m : nat) (v1 v2 : N) (s : simS) : simS :=
   (* __Init_Sols_n(): the solution vectors now belong to the new mesh (only if the call is unconditional) *)
   let s0 := if t_meshset_initsols T then set_st (set_solD v2 (set_solU v1 s)) m else s in
   let a := set_cur m s0 in
-  let a := set_rg a (mkReg (if t_meshset_sub T then m :: subs (rg a) else subs (rg a))
+  let kept := if t_meshset_keeps_old T then subs (rg a) else remove Nat.eq_dec (cur (cf s)) (subs (rg a)) in
+  let a := set_rg a (mkReg (if t_meshset_sub T then m :: kept else kept)
                            (hist (rg a) ++ [m]) (subm (rg a)) (submat (rg a)) (iters (rg a))) in
   let b := if t_meshset_clear T then clear_simcache a else a in
   let c := if t_meshset_need T then raise T b else b in
@@ -397,9 +400,10 @@ Definition flag_of (T : table) (id : nat) : bool :=
   | 28 => t_pf_setiter_u T | 29 => t_pf_dmg_inval_u T | 30 => t_pf_el_inval_d T
   | 31 => t_csr_key_groups T | 32 => t_csr_key_ndof T | 33 => t_mass_key_group T
   | 34 => t_model_cache_refresh T | 35 => t_meshset_initsols T | 36 => t_param_set_unconditional T
+  | 37 => t_meshset_keeps_old T
   | _ => true
   end.
-Definition all_ids : list nat := seq 1 36.
+Definition all_ids : list nat := seq 1 37.
 Definition failing (T : table) : list nat := filter (fun id => negb (flag_of T id)) all_ids.
 
 (* the table with the flags listed in [off] switched off (everything else as the property needs) *)
@@ -407,7 +411,7 @@ Definition mk_table (off : list nat) : table :=
   let on id := negb (existsb (Nat.eqb id) off) in
   mkTable (on 1) (on 2) (on 3) (on 4) (on 5) (on 6) true (on 7) (on 8) (on 9)
           (fun k => on (10 + mop_idx k)) (fun k => on (14 + mop_idx k))
-          (on 18) (on 40) (on 19) (on 35) (on 20) (on 41)
+          (on 18) (on 40) (on 19) (on 37) (on 35) (on 20) (on 41)
           (if on 21 then NIfLag else NNever) (if on 22 then NIfLag else NNever) NNever
           (if on 23 then NAlways else NNever) true (on 24) (on 25) (on 26) (on 27) (on 28) (on 29) (on 30)
           (on 31) (on 32) (on 33) (on 36) (on 34).
@@ -444,6 +448,7 @@ Definition witness (id : nat) : list op :=
   | 34 => [pfs; OGetK 0 false; OParam true]
   | 35 => [lin; OSolve 0; ONewMesh; OSetMesh 0 1]
   | 36 => [lin; OGetK 0 false; OParamArr false true]
+  | 37 => [lin; OSaveIter 0; ONewMesh; OSetMesh 0 1; OSetIter 0 0; OGetK 0 false; OMeshMove 0 MRotate]
   | _ => []
   end.
 
